@@ -19,6 +19,7 @@ type Engine struct {
 	pkgs      []*ssa.Package
 	layouts   sync.Map // types.Type -> *Layout
 	finfo     sync.Map // *ssa.Function -> *FuncInfo
+	modelFn   sync.Map // *ssa.Function -> bool
 	redirects map[string]string
 	repoRoot  string
 	verbose   int
@@ -125,6 +126,7 @@ type Goroutine struct {
 	yielded  bool
 	pendObj  *Obj
 	pendWrite bool
+	vcm      vclock
 }
 
 type endKind int
@@ -196,6 +198,7 @@ type State struct {
 	rb map[int][2]uint64
 
 	sched       *Sched
+	race        *raceState
 	schedChoice map[string]int
 	altModels   map[int]Model
 }
